@@ -115,9 +115,9 @@ parser! {
             x:(@) space() "%" space() y:@ { Expr::Binary(Box::new(BinaryExpr{left: x, operator: BinaryOperator::Rem, right: y})) }
             --
             // precedence 14
-            "-" v:@ { Expr::Unary(Box::new(UnaryExpr{operator: UnaryOperator::Minus, expr: v})) }
-            "~" v:@ { Expr::Unary(Box::new(UnaryExpr{operator: UnaryOperator::BitwiseNot, expr: v})) }
-            "!" v:@ { Expr::Unary(Box::new(UnaryExpr{operator: UnaryOperator::LogicalNot, expr: v})) }
+            "-" space() v:@ { Expr::Unary(Box::new(UnaryExpr{operator: UnaryOperator::Minus, expr: v})) }
+            "~" space() v:@ { Expr::Unary(Box::new(UnaryExpr{operator: UnaryOperator::BitwiseNot, expr: v})) }
+            "!" space() v:@ { Expr::Unary(Box::new(UnaryExpr{operator: UnaryOperator::LogicalNot, expr: v})) }
             --
             // precedence 15
             n:e_ident() space() "(" space() args:expr() space() ")" { Expr::Func(Box::new(n), Box::new(args)) }
@@ -170,9 +170,9 @@ parser! {
             = r_name:$(['x' | 'y' | 'z' | 'X' | 'Y' | 'Z']) { Reg16::from_str(r_name.to_lowercase().as_str()).unwrap() }
 
         pub rule index_ops() -> IndexOps
-            = "-" r:reg16() !char_ident() { IndexOps::PreDecrement(r) }
-            / r:reg16() "+" e:expr() { IndexOps::PostIncrementE(r, e) }
-            / r:reg16() "+" { IndexOps::PostIncrement(r) }
+            = "-" space() r:reg16() !char_ident() { IndexOps::PreDecrement(r) }
+            / r:reg16() space() "+" space() e:expr() { IndexOps::PostIncrementE(r, e) }
+            / r:reg16() space() "+" { IndexOps::PostIncrement(r) }
             / r:reg16() !char_ident() { IndexOps::None(r) }
 
 
